@@ -46,6 +46,10 @@ func (d *Decoder) decodeTypedUint() (Type, uint64, error) {
 		nfollow = 4
 	case 27:
 		nfollow = 8
+	case 28, 29, 30, 31:
+		// 28-30 are reserved and 31 marks indefinite-length items, which this
+		// decoder does not support. Neither carries an argument.
+		return t, 0, fmt.Errorf("cbor: unsupported additional information %d", ai)
 	default:
 		nfollow = 0
 	}
